@@ -69,6 +69,13 @@ THOROUGH = QUICK + [
     _k('periodic_storage_dur_T8', opt='periodic', kind='storage', T=8, eff=0.75, duration='4h'),
     _k('coarse_contract_dst_days', opt='coarse', kind='contract', T=4, coarse='2d', freq=('d', '2021-03-27', '2021-03-31', 'CET')),
     _k('coarse_transport_dst_days', opt='coarse', kind='transport', T=4, coarse='2d', eff=0.5, freq=('d', '2021-10-30', '2021-11-03', 'CET')),
+    # deeper: longer horizons, windows together with coarse take periods, three periods
+    _k('coarse_take_contract_T6_3h', opt='coarse', kind='take', T=6, coarse='3h'),
+    _k('coarse_take_window_T6', opt='coarse', kind='take', T=6, win=(2, 6)),
+    _k('coarse_storage_T8', opt='coarse', kind='storage', T=8, eff=0.75),
+    _k('periodic_contract_window_T8', opt='periodic', kind='contract', T=8, win=(2, 7)),
+    _k('periodic_transport_T6_costs', opt='periodic', kind='transport', T=6, eff=0.5, costs=True),
+    _k('periodic_take_T6', opt='periodic', kind='take', T=6),
 ]
 BOUNDS = dict(quick='%s; hourly (30-min) grids, T<=8, coarse 2h/3h, period 2h, duration 4h; wacc = 0' % [c[0] for c in QUICK],
               thorough='%s' % [c[0] for c in THOROUGH])
